@@ -1,6 +1,8 @@
 package parser
 
 import (
+	"context"
+
 	"github.com/ajitpratap0/GoSQLX/pkg/models"
 	"github.com/ajitpratap0/GoSQLX/pkg/sql/token"
 	vx "github.com/ajitpratap0/GoSQLX/zzvx"
@@ -104,4 +106,26 @@ func VxC08_Pool() {
 		vx.Assertf("C08.pool_positions", len(q.positions) == 0, "position mapping of the previous parse survives (how=%d)", how)
 	}
 	vx.Assertf("C08.pool_config", q.strict == fresh.strict && q.dialect == fresh.dialect, "configuration of the previous holder survives (how=%d): strict=%v dialect=%q", how, q.strict, q.dialect)
+}
+
+// C08 invariant, strengthened to an arbitrary nesting context: whatever happens inside
+// parseExpression — success, syntax error, the depth-limit rejection, cancellation — the
+// depth counter returns to its entry value (so I = (depth==0) is re-established by every
+// entry point no matter how deeply nested the input was).
+func VxC08_DepthRestored() {
+	p := NewParser()
+	toks := append([]token.Token{}, VxExprTable.Toks(3)...)
+	toks = append(toks, VxEOF)
+	VxNoteToks(toks)
+	p.tokens = toks
+	p.currentPos = 0
+	p.currentToken = toks[0]
+	d := vx.Small(201)
+	p.depth = d
+	c := &vxCtx{k: vx.Small(8), kind: context.Canceled}
+	if vx.Bool() {
+		p.ctx = c
+	}
+	_, _ = p.parseExpression()
+	vx.Assertf("C08.inv_depth_any", p.depth == d, "parseExpression entered with depth %d returned with depth %d", d, p.depth)
 }
